@@ -169,6 +169,10 @@ def gen_box(rng, triclinic):
 def gen_title(rng):
     words = ["mapped", "system", "t=", "0.000", "ionic", "liquid", "GROMACS", "rocks", "step", "42", "#", "CG;"]
     t = " ".join(rng.choice(words) for _ in range(rng.randint(1, 6)))
+    if rng.random() < 0.12:
+        # characters that take two bytes in the (UTF-8) file: the count line of the OUTPUT is found by a byte offset
+        # (seed C05-11: `len(self.comment) + 1`, a character count)
+        t += rng.choice([" líquido iónico", " caja de 4,2 nm ± 0,1", " é"])
     return t if rng.random() < 0.8 else "  " + t + "  "
 
 
